@@ -220,6 +220,7 @@ func TestVerif_C02_call(t *testing.T) {
 		used, resends, challenged := 0, 0, false
 		ptxt, panicked := verifh.Safely(func() {
 			cl := C()
+			cl.GetTransport().DisableAutoDecode()
 			cl.SetJsonUnmarshal(func(data []byte, v interface{}) error {
 				tg, ok := v.(*c02Target)
 				if !ok {
@@ -252,7 +253,9 @@ func TestVerif_C02_call(t *testing.T) {
 					if e.fin == "fail" {
 						sb.fin = errC02Boom
 					}
-					h := http.Header{"X-Ex": {strconv.Itoa(i)}, "Content-Type": {"application/json"}}
+					// no Content-Type: the charset auto-decoding stage (C15) must stay out of the way
+					// (random bodies do start with a byte-order mark now and then)
+					h := http.Header{"X-Ex": {strconv.Itoa(i)}}
 					if e.status == 401 {
 						h.Set("Www-Authenticate", c02Challenge)
 						if !isResend {
